@@ -262,13 +262,15 @@ fn run_hist<C: RangeCombo>(segs: &[Vec<&str>]) -> String {
         let r = guarded(|| -> Option<String> {
             if let Some(coder) = enc.as_mut() {
                 Some(match seg.as_slice() {
-                    ["enc", b, p, cum, pr] => C::enc(
-                        coder,
-                        parse_hex(b)? as u32,
-                        parse_hex(p)? as u32,
-                        Some((parse_hex(cum)?, parse_hex(pr)?)),
-                    )
-                    .unwrap_or("unsupported".into()),
+                    ["enc", b, p, cum, pr] => {
+                        let (pp, cum, pr) = (parse_hex(p)? as u32, parse_hex(cum)?, parse_hex(pr)?);
+                        let o = C::enc(coder, parse_hex(b)? as u32, pp, Some((cum, pr))).unwrap_or("unsupported".into());
+                        // the big-number reference is only defined for pairs inside [0, 2^P]
+                        if o == "ok" && cum + pr > pow2(pp) {
+                            spec_ok = false;
+                        }
+                        o
+                    }
                     ["encnone", b, p] => C::enc(coder, parse_hex(b)? as u32, parse_hex(p)? as u32, None)
                         .unwrap_or("unsupported".into()),
                     ["export"] => show_list(export::<C>(coder)),
